@@ -84,3 +84,8 @@ impl DnsRouteHandler {
         }
     }
 }
+
+#[cfg(feature = "isomer_erbium_verif")]
+mod isomer_erbium_verif {
+    include!(concat!(env!("ISOMER_ERBIUM_VERIF_DIR"), "/dns_router.rs"));
+}
